@@ -277,7 +277,15 @@ def make_unit(name, size, write, kind):
         for i, (g, e) in enumerate(zip(got, exp)):
             for j in range(1, len(g)):
                 named.append(('access%d.%s.arg%d' % (i, g[0], j), values_eq(g[j], e[j])))
-        eng.oblige_all('post', '%s: every translation and hub access has the architectural address, size, privilege, direction and data' % name, named)
+        whole = eng.oblige_all('post', '%s: every translation and hub access has the architectural address, size, privilege, direction and data' % name, named)
+        # the privilege the accesses are checked with, as an obligation of its own (last clause of C19: unprivileged load/store
+        # variants are checked with User permissions): conjuncts of the comparison above
+        privs = [n_ for n_ in named if n_[0].endswith('.xlat.arg2')]
+        if privs:
+            if whole.status == 'proved':
+                eng.oblige('post.priv', '%s: every translation is requested with the architectural privilege' % name, True)
+            else:
+                eng.oblige_all('post.priv', '%s: every translation is requested with the architectural privilege' % name, privs)
         if not aborted and not write:
             eng.oblige('post', '%s: returned value (endianness applied)' % name, values_eq(r, exp_r))
         eng.oblige('post', '%s: physical memory afterwards' % name, sym.SymBool(hub.term == hubterm[0]))
